@@ -108,6 +108,8 @@ def build(cfg, record=True):
         rar.update(sample_size_times=cfg["cand_t"], selected_sample_size_times=cfg["sel_t"])
     if kind in ("statio", "nonstatio"):
         rar.update(sample_size_omega=cfg["cand_x"], selected_sample_size_omega=cfg["sel_x"])
+    if cfg.get("rar_order") == "omega_first":
+        rar = {k: rar[k] for k in sorted(rar)}  # same content, written in another order ('sample_size_omega' first)
     d = cfg.get("dim", 0)
     lo, hi = [-1.0, 0.5][:d], [2.0, 1.5][:d]
     with warnings.catch_warnings():
